@@ -23,7 +23,7 @@ import (
 func TestMain(m *testing.M) { ev.Main(m, "C18") }
 
 var (
-	ourNicks   = []string{"me", "n2", "Al ice", `x&y<z>'"`, "ünï"}
+	ourNicks = []string{"me", "n2", "Al ice", `x&y<z>'"`, "ünï"}
 	// (other occupants, some of whose nicknames differ from ours only in the
 	// case of letters: resourceparts are compared exactly)
 	otherNicks = []string{"alice", "Bob B", "gh&st", "Me", "ME", "N2", "al ice", "ÜNÏ"}
@@ -323,6 +323,16 @@ func step(rt *rapid.T, e *env) bool {
 		s.inviter = rapid.SampledFrom([]string{"", "crone1@shakespeare.lit/desktop"}).Draw(rt, "inviter")
 		s.reason = gen.Text(rt, "reason")
 		s.password = gen.Text(rt, "invpw")
+		if rapid.IntRange(0, 2).Draw(rt, "shortInvite") == 0 {
+			// nothing to say: reason and / or password empty, as empty elements or left out
+			if rapid.Bool().Draw(rt, "noReason") {
+				s.reason = ""
+			}
+			if rapid.Bool().Draw(rt, "noPassword") {
+				s.password = ""
+			}
+			s.emptyEls = rapid.Bool().Draw(rt, "emptyEls")
+		}
 		s.cont = rapid.Bool().Draw(rt, "cont")
 		if s.cont {
 			s.thread = rapid.SampledFrom([]string{"", "e0ffe42b28561960c6b12b944a092794b9683a38", "t<&>"}).Draw(rt, "thread")
